@@ -23,4 +23,10 @@ MUT = {
  'c14_str_key': ('aiuti/asyncio.py', "key = args, frozenset(kwargs.items())", "key = tuple(map(str, args)), frozenset(kwargs.items())", 'C14'),
  'c14_private_store': ('aiuti/asyncio.py', "    _cache: _CacheMap = cache if cache is not None else {}", "    _cache: _CacheMap = dict(cache) if cache is not None else {}", 'C14'),
  'c14_flatten': ('aiuti/asyncio.py', "key = args, frozenset(kwargs.items())", "key = args + tuple(v for _, v in sorted(kwargs.items()))", 'C14'),
+ 'c10_no_semaphore': ('aiuti/asyncio.py', "            async with self._semaphore:  # Limit concurrent executions\n", "            if True:\n", 'C10'),
+ 'c10_size_le': ('aiuti/asyncio.py', "        while len(tasks) < self.max_batch_size:", "        while len(tasks) <= self.max_batch_size:", 'C10'),
+ 'c10_no_timeout': ('aiuti/asyncio.py', "                tasks.append(await aio.wait_for(q.get(), self.batch_timeout))", "                tasks.append(await aio.wait_for(q.get(), 0))", 'C10'),
+ 'c10_lifo': ('aiuti/asyncio.py', "        self._queue = aio.Queue()\n        self.max_batch_size", "        self._queue = aio.LifoQueue()\n        self.max_batch_size", 'C10'),
+ 'c10_sem_plus1': ('aiuti/asyncio.py', "aio.Semaphore(value=max_concurrent_batches)", "aio.Semaphore(value=max_concurrent_batches + 1)", 'C10'),
+ 'c10_timeout_double': ('aiuti/asyncio.py', "                tasks.append(await aio.wait_for(q.get(), self.batch_timeout))", "                tasks.append(await aio.wait_for(q.get(), self.batch_timeout * (2 if len(tasks) > 1 else 1)))", 'C10'),
 }
